@@ -45,7 +45,7 @@ def pinter : P (Option (SegInter Float)) := do
 /-! ## exact helpers -/
 def cross2 (u v : V2 Rat) : Rat := u.x * v.y - u.y * v.x
 /-- twice the signed area of `(a, b, c)`; positive = counter-clockwise -/
-def area2 (a b c : V2 Rat) : Rat := cross2 (b.sub a) (c.sub a)
+def area2R (a b c : V2 Rat) : Rat := cross2 (b.sub a) (c.sub a)
 def rmax (a b : Rat) : Rat := if a < b then b else a
 def rmin (a b : Rat) : Rat := if b < a then b else a
 def ninf (v : V2 Rat) : Rat := rmax (rabs v.x) (rabs v.y)
@@ -72,13 +72,13 @@ def withOut {α} (p : P α) (out : List String) (k : α → String) : String :=
 
 /-! ## oracle: orientation2d -/
 def oracleOrient (a b c : V2 Rat) (eps : Rat) (out : List String) : String :=
-  let A := area2 a b c
+  let A := area2R a b c
   let scale := ninf (b.sub a) * ninf (c.sub a)
   let exact := isLat2 a && isLat2 b && isLat2 c
   let slack : Rat := if exact then 0 else tol * (1 + scale)
   if !exact && (rabs (A - eps) ≤ slack || rabs (A + eps) ≤ slack) then "skip rounding-sensitive" else
   let ex := if A > eps then "ccw" else if A < -eps then "cw" else "deg"
-  if out = [ex] then "pass" else s!"fail orientation expected={ex} area2={A}"
+  if out = [ex] then "pass" else s!"fail orientation expected={ex} area2R={A}"
 
 /-! ## oracle: segments_intersection2d -/
 /-- parameter of `p` on the line `a + t (b - a)` along the dominant axis (`a ≠ b`) -/
@@ -124,7 +124,7 @@ def oracleSeg (a b c d : V2 Rat) (eps : Rat) (o : Option (SegInter Float)) : Str
   else
     -- parallel lines (exactly, or up to the rounding of non-lattice inputs)
     if !exact && (D ≠ 0 || eps ≤ 2 * err) then "skip rounding-sensitive-parallel" else
-    let A := area2 a b c
+    let A := area2R a b c
     let errA : Rat := if exact then 0 else (ninf (b.sub a) * ninf (c.sub a)) / 1000000000000
     if A ≠ 0 then
       if rabs A ≤ eps + errA then "skip within-collinearity-epsilon" else
@@ -155,7 +155,7 @@ def edgesOf (poly : List (V2 Rat)) : List (V2 Rat × V2 Rat) :=
 
 /-- `p` on the closed segment `[a,b]`, with slack `sl` on the line distance (0 = exact) -/
 def onSegment (a b p : V2 Rat) (sl : Rat) : Bool :=
-  let A := area2 a b p
+  let A := area2R a b p
   rabs A ≤ sl * (1 + ninf (b.sub a)) &&
     rmin a.x b.x - sl ≤ p.x && p.x ≤ rmax a.x b.x + sl && rmin a.y b.y - sl ≤ p.y && p.y ≤ rmax a.y b.y + sl
 
@@ -183,7 +183,7 @@ def oraclePoly (p : V2 Rat) (poly : List (V2 Rat)) (out : List String) : String 
 /-- all vertices on one side of every edge (⇔ convex position, rules out star polygons) and non-zero area -/
 def convexSign (poly : List (V2 Rat)) : Option Rat :=
   let es := edgesOf poly
-  let sides : List Rat := es.flatMap fun e => poly.map fun v => area2 e.1 e.2 v
+  let sides : List Rat := es.flatMap fun e => poly.map fun v => area2R e.1 e.2 v
   let area : Rat := (es.map fun e => cross2 e.1 e.2).foldl (· + ·) 0
   if area == 0 then none
   else if sides.all (fun x => decide (0 ≤ x)) then some 1
@@ -195,9 +195,9 @@ def inFan (p : V2 Rat) (poly : List (V2 Rat)) : Bool :=
   match poly with
   | v0 :: rest =>
     (List.zip rest (rest.drop 1)).any fun (v1, v2) =>
-      let S := area2 v0 v1 v2
+      let S := area2R v0 v1 v2
       if S = 0 then false else
-      let l0 := area2 p v1 v2 / S; let l1 := area2 v0 p v2 / S; let l2 := area2 v0 v1 p / S
+      let l0 := area2R p v1 v2 / S; let l1 := area2R v0 p v2 / S; let l2 := area2R v0 v1 p / S
       decide (0 ≤ l0) && decide (0 ≤ l1) && decide (0 ≤ l2)
   | [] => false
 
@@ -208,7 +208,7 @@ def oracleConvex (p : V2 Rat) (poly : List (V2 Rat)) (out : List String) : Strin
   | some _ =>
     let exact := isLat2 p && poly.all isLat2
     let sl : Rat := if exact then 0 else 1 / 100000000
-    if !exact && (edgesOf poly).any (fun (a, b) => rabs (area2 a b p) ≤ sl * (1 + ninf (b.sub a)) * (1 + ninf (p.sub a)))
+    if !exact && (edgesOf poly).any (fun (a, b) => rabs (area2R a b p) ≤ sl * (1 + ninf (b.sub a)) * (1 + ninf (p.sub a)))
     then "skip rounding-sensitive" else
     let ex := inFan p poly
     if out = [fb ex] then "pass" else s!"fail convex-membership expected={ex}"
@@ -222,10 +222,10 @@ def oracleCorner (p1 p2 p3 : V2 Rat) (out : List String) : String :=
   if out = [ex] then "pass" else s!"fail corner-direction expected={ex}"
 
 def oracleInTri (p v1 v2 v3 : V2 Rat) (out : List String) : String :=
-  let S := area2 v1 v2 v3
+  let S := area2R v1 v2 v3
   let exact := isLat2 p && isLat2 v1 && isLat2 v2 && isLat2 v3
   if S = 0 then "skip degenerate-triangle" else
-  let c1 := area2 p v2 v3; let c2 := area2 v1 p v3; let c3 := area2 v1 v2 p
+  let c1 := area2R p v2 v3; let c2 := area2R v1 p v3; let c3 := area2R v1 v2 p
   -- rounding error of the implementation's three cross products (0 on lattice inputs)
   let diam := ninf (v2.sub v1) + ninf (v3.sub v1) + ninf (p.sub v1)
   let err : Rat := if exact then 0 else diam * diam / 1000000000000
@@ -247,13 +247,13 @@ def strictlyConvex (poly : List (V2 Rat)) (sl : Rat) : Bool :=
     match poly with
     | a :: b :: rest =>
       let ext := poly ++ [a, b]
-      (List.zip (List.zip ext (ext.drop 1)) (ext.drop 2)).all fun ((p, q'), r) => decide (sg * area2 p q' r > sl)
+      (List.zip (List.zip ext (ext.drop 1)) (ext.drop 2)).all fun ((p, q'), r) => decide (sg * area2R p q' r > sl)
     | _ => false
 
 /-- clip the polygon `subj` by the closed left half-plane of the directed line `a → b` -/
 def clipHalfPlane (subj : List (V2 Rat)) (a b : V2 Rat) : List (V2 Rat) :=
   (edgesOf subj).flatMap fun (p, q') =>
-    let sp := area2 a b p; let sq' := area2 a b q'
+    let sp := area2R a b p; let sq' := area2R a b q'
     let inter : V2 Rat := let t := sp / (sp - sq'); p.add ((q'.sub p).smul t)
     if sp ≥ 0 then (if sq' ≥ 0 then [q'] else [inter])
     else (if sq' ≥ 0 then [inter, q'] else [])
@@ -267,7 +267,7 @@ degeneracy" but not exactly degenerate, hence outside the property's domain -/
 def nearTouch (P Q : List (V2 Rat)) (diam : Rat) : Bool :=
   let τ : Rat := 1 / 10000000
   (edgesOf P).any fun (a, b) => Q.any fun v =>
-    decide (rabs (area2 a b v) ≤ τ * diam * (ninf (b.sub a) + τ * diam)) &&
+    decide (rabs (area2R a b v) ≤ τ * diam * (ninf (b.sub a) + τ * diam)) &&
     decide (rmin a.x b.x - τ * diam ≤ v.x) && decide (v.x ≤ rmax a.x b.x + τ * diam) &&
     decide (rmin a.y b.y - τ * diam ≤ v.y) && decide (v.y ≤ rmax a.y b.y + τ * diam)
 
@@ -292,7 +292,7 @@ def oracleCvx (p1 p2 : List (V2 Rat)) (eps : Rat) (out : List (V2 Float)) : Stri
   -- every output vertex lies in both polygons
   let slack : Rat := (1 + bb) / 100000000
   let inside (R : List (V2 Rat)) (v : V2 Rat) : Bool :=
-    (edgesOf R).all fun (a, b) => decide (area2 a b v ≥ -slack * (1 + ninf (b.sub a)))
+    (edgesOf R).all fun (a, b) => decide (area2R a b v ≥ -slack * (1 + ninf (b.sub a)))
   match O.find? (fun v => !(inside P v && inside Q v)) with
   | some v => s!"fail output-vertex-outside-an-input ({v.x},{v.y})"
   | none =>
